@@ -56,7 +56,8 @@ CHECKS.update({
         text="Differential twin: every program of the typed grammar with <= 6 (thorough: 7) nodes and every binder skeleton of depth <= 3 (thorough: 4) "
              "whose free identifiers are attributes of the argument map (locals and constants shadow them; uses at every closure nesting level) is "
              "generated with GenerateWithMap(exp) and, after the checks' own free-variable substitution x -> this.x on the AST, with Generate(exp'); both "
-             "are evaluated on the same map in five storage representations, optimizer on and off; Generate-time success and outcomes must agree.",
+             "are evaluated on the same map in five storage representations, optimizer on and off; Generate-time success and outcomes must agree. A second "
+             "attribute set holds closures (f:(int,int)->int, g:int->int): implicit calls f(..) against the method-call form this.f(..), with let/func inside the arguments.",
         note="Trusted: the free-variable substitution of internal/vlang. The explicit form's own correctness is C01's claim.",
         technique="bounded-exhaustive differential enumeration (implicit vs explicit attribute access)",
         design_ref="DESIGN.md §5 C16",
@@ -71,7 +72,8 @@ CHECKS.update({
              "from a small atom set) is enumerated exhaustively: all ordered pairs x the 7 operators = != < > <= >= ~, each generated once as 'a OP b' and "
              "called on freshly built argument values, are checked against a reference relation written from the property text and against every law of the "
              "property as relations between table entries; all triples of the numeric and string sub-pools for transitivity; min, max, list.min/max, "
-             "order, orderRev and switch on all pairs and on all triples of the hand-picked values must agree with the operator tables.",
+             "order, orderRev and switch on all pairs and on all triples of the hand-picked values must agree with the operator tables. Every operator is also "
+             "evaluated twice on the SAME operand objects (same outcome; each operand still equals a fresh copy of itself).",
         note="Trusted: the ~260-line reference relation (numbers via math/big). Categories the property text leaves open (closure = closure, < on bools, "
              "string~string, string~map, list~list, map = map where key order decides error-vs-false, NaN in min/max/order) are excluded and counted "
              "under unspecified_excluded. An error that is a recovered Go panic satisfies 'fails with an error' (C05 owns catchability).",
@@ -82,7 +84,9 @@ CHECKS.update({
 
 VS = ("Trusted: the scheduler shim verif/vsched (channel/select/WaitGroup/Mutex semantics per the Go spec, vector-clock happens-before) and the generic "
       "rewriter tools/vrewrite that binds it to the CURRENT sources at check time; sequentially consistent interleavings at synchronisation granularity; "
-      "virtual time (only the host function slow() costs time; timers fire when nothing else is enabled).")
+      "virtual time (only the host function slow() costs time; timers fire when nothing else is enabled). History-key pruning of the search is sound for "
+      "communication through hooked operations (channels, WaitGroup, Mutex and atomics with reads-from identity, hooked fields and stack slots); memory no "
+      "hook sees is covered by unpruned preemption-bounded passes (C06, C11) and free-running -race passes (C05, C06).")
 CHECKS.update({
     "C06": dict(
         level="model_checking", engine="vsched",
@@ -92,7 +96,7 @@ CHECKS.update({
              "parallel stages) ALL interleavings are explored on the real code (stateless DFS, history-key pruning, no preemption bound) and every terminal "
              "state is checked: outcome = strictly sequential reference, no happens-before data race on the value stacks, no deadlock, no panic on a "
              "library goroutine. A conformance pass evaluates every quick scenario on the PLAIN build (real goroutines, a really sleeping slow()) against "
-             "the sequential variant. A third pass runs the same scenarios free-running on a -race build; every distinct report is classified.",
+             "the sequential variant. Every scenario is explored a second time WITHOUT pruning under a preemption bound of 2 (thorough: 3; capped per scenario, cap hits in the evidence). A third pass runs the same scenarios free-running on a -race build; every distinct report is classified.",
         note=VS + " List lengths beyond 17 and more than 3 elements in the parallel phase are not explored (each further element repeats the same worker cycle). "
              "A multiUse consumer that never iterates its list yields the pinned 'iterator timed out' error (repository test) and is excluded from the outcome oracle.",
         technique="stateless model checking of the implementation under a controlled scheduler: exhaustive interleaving exploration with vector-clock race detection",
@@ -182,7 +186,9 @@ CHECKS.update({
              "quotes, backslash, comment openers, NUL, invalid UTF-8, alias and superscript runes) and every sequence of <= 4 (<= 5) tokens over the 32-token "
              "value-language alphabet is passed to the real Parser.Parse (generic table) and value.New().Generate with comments and comfort on and off, on the plain "
              "build with real goroutines; the same for n-fold repetitions of 24 openers up to 64 KiB and for every valid <= 3-token program padded to 64 KiB with "
-             "blanks and comments. A case fails if it panics (recover), kills the process (journaled re-run), does not return (CPU/wall watchdog) or, for the 64 KiB "
+             "blanks and comments; also every string of <= 4 (<= 5) symbols over a 22-symbol alphabet with one rune of every Unicode class the scanner's predicates "
+             "tell apart (No, Nl, Nd of other scripts, letters, symbols, Zs/Zl, Mn, Cf), and 2478 constant expressions whose folding may fail (17 binary operators x "
+             "12 x 12 constant operands, 30 unary/index/method forms) at each of 42 syntactic positions. A case fails if it panics (recover), kills the process (journaled re-run), does not return (CPU/wall watchdog) or, for the 64 KiB "
              "families, grows more than 8x in CPU time when the input doubles. Exhaustive within those bounds (14 M calls quick); edge configurations (last binary "
              "operator also prefix, empty table, nothing optional, 28 priority levels) run on smaller bounds. Deadlock freedom of the tokenizer/parser pair under "
              "every schedule is decided exactly by C12's parser space under the controlled scheduler.",
@@ -215,7 +221,8 @@ CHECKS.update({
              "(thorough <= 4; <= 5 with a 6-separator set) tokens and every pair of gaps beyond, x comments on/off x comfort on/off. The parse must give the canonical "
              "rendering's AST, and every node/error line must be the renderer's line of the token that node kind records. All strings and quoted identifiers of <= 3 "
              "(<= 4) symbols, all aliases/superscripts and all comfort juxtaposition patterns are checked against source string / ASCII spelling / explicit '*'. "
-             "Exhaustive within these bounds (10.4 M evaluations quick, 214 M thorough).",
+             "Every block-comment content of <= 3 (4) symbols over {c * / LF blank quote} and every line-comment content of <= 2 (3) symbols is placed in every gap "
+             "of 11 fixed programs. Exhaustive within these bounds (10.6 M evaluations quick, 214 M thorough).",
         note="Trusted: the check's reference lexer (decides which separators are admissible), the node-kind->token rule read off parser2.go, Go's strings. Optimizer "
              "removed. Unspecified and counted: line of the inserted comfort '*', comment-without-blank before '(', error at EOF has no line, juxtaposition with "
              "quoted identifiers.",
@@ -270,12 +277,12 @@ CHECKS.update({
 CHECKS.update({
     "C11": dict(
         level="model_checking", engine="vsched",
-        text="38 (thorough: 42) programs whose folded constants meet run-time values (lazy, eager, nested and map-embedded list constants indexed, appended, sorted, "
-             "compared, searched; constant maps, closures, strings; recursion; failing accesses) are generated freshly inside every execution and evaluated by T=2 and T=3 "
+        text="46 (thorough: 50) programs whose folded constants meet run-time values (lazy, eager, nested and map-embedded list constants indexed, appended, sorted, "
+             "compared, searched; constants with spare capacity; private lazy lists whose producers use the passed stack; constant maps, closures, strings; recursion; failing accesses) are generated freshly inside every execution and evaluated by T=2 and T=3 "
              "vthreads at once with equal and different arguments under the controlled scheduler. Every read/write of value.List's fields items, "
              "itemsPresent, iterable, size (generated hooks at all 73 access sites) is a scheduling point and a race-checked access, so ALL sequentially consistent "
-             "interleavings at field granularity are explored; every vthread's outcome must equal its isolated outcome and no two conflicting accesses may be "
-             "unordered by happens-before.",
+             "interleavings at field granularity are explored (history-key pruning), and again WITHOUT pruning every schedule with <= 3 (T=3: 2; thorough +1) "
+             "preemptions; every vthread's outcome must equal its isolated outcome and no two conflicting accesses may be unordered by happens-before.",
         note=VS + " What a vthread reads from a hooked field enters its history as the identity of the write it observed, which keeps state-key pruning sound. "
              "The only state shared between evaluations are the function's folded constants and the generator; weak-memory effects of a racy program are out of "
              "reach, which is why the race itself is the reported violation (finding F11, known).",
